@@ -101,6 +101,7 @@ func readHistory(ms store.Momentum, c types.Address, e uint64, a types.Address) 
 }
 
 func runC11(r *simrt.Run) {
+	r.WatchLocks() // a lock of the node that is never released is a violation, not a hang
 	t := r.T
 	mode := nomsim.SporkMode(t.Choose(3))
 	w := nomsim.NewWorld(r, nomsim.MockGenesis(mode))
